@@ -3736,3 +3736,29 @@ def r11_15(ctx, rule):
                      'nothing on the way to this removal rules out an empty %s: the custom diff then holds removerange(0, 0), an entry that removes nothing' % subj, c)
     if n == 0:
         ctx.inst(rule, 'nbdime.merging.strategies', 'no hand-built removal whose length is a len(...)', True, 'nothing to guard', None, nontrivial=False)
+
+
+@extra('C17', 'R17.17', 'resolve_diff_args, evaluated over every combination of (first word is a revision or a file) x (second word absent / revision / file) x (no / some further '
+       'words), yields the documented (base, remote, paths): which revisions are compared and which words become path filters does not depend on how the function is laid out', 10)
+def r17_17(ctx, rule):
+    from .. import diffargs as E
+    repo, cg = ctx.repo, ctx.cg
+    fid = 'nbdime.args:resolve_diff_args'
+    fn = repo.func(fid)
+    n = 0
+    for w in E.worlds():
+        label = 'base %s, remote %s, paths %s' % ('ref' if w['base'] in w['ref'] else 'file',
+                                                  'absent' if w['remote'] is None else ('ref' if w['remote'] in w['ref'] else 'file'),
+                                                  'none' if w['paths'] is None else ('[]' if not w['paths'] else 'given'))
+        try:
+            got = E.norm(E.eval_resolve_diff_args(repo, cg, fn, w))
+        except AnalysisError as e:
+            ctx.inst(rule, fid, label, True, 'not evaluated (%s): the shape rules R17.4, R17.10, R17.15 still apply' % str(e)[:90], fn, nontrivial=False)
+            continue
+        n += 1
+        exp = E.expected(w)
+        ok = got == exp
+        ctx.inst(rule, fid, label + ' -> %r' % (got,), ok, 'as documented' if ok else
+                 'the documented resolution for this command line is %r: other revisions are compared / other files are asked of git than the user named' % (exp,), fn)
+    if n == 0:
+        ctx.note('R17.17: resolve_diff_args could not be evaluated abstractly on this tree')
